@@ -23,17 +23,37 @@ _scratch_root = None
 
 
 def scratch_root():
-    """A fresh private scratch directory (removed at exit)."""
+    """A private scratch directory, removed at exit.  Worker processes (forked or spawned) share the directory
+    of the process that started them (VERIF_SCRATCH_ROOT), so that nothing is left behind when they end without
+    running their exit handlers; directories of processes that no longer exist are swept when a new one is made."""
     global _scratch_root
     if _scratch_root is None:
-        _scratch_root = tempfile.mkdtemp(prefix='sqverif_')
+        inherited = os.environ.get('VERIF_SCRATCH_ROOT')
+        if inherited and os.path.isdir(inherited):
+            _scratch_root = inherited
+            return _scratch_root
+        _sweep_stale()
         owner = os.getpid()
+        _scratch_root = tempfile.mkdtemp(prefix='sqverif_%d_' % owner)
+        os.environ['VERIF_SCRATCH_ROOT'] = _scratch_root
 
         def cleanup(root=_scratch_root):
-            if os.getpid() == owner:      # forked workers must not remove the parent's scratch
+            if os.getpid() == owner:      # workers must not remove the scratch of the process that started them
                 shutil.rmtree(root, True)
         atexit.register(cleanup)
     return _scratch_root
+
+
+def _sweep_stale():
+    base = tempfile.gettempdir()
+    try:
+        names = os.listdir(base)
+    except OSError:
+        return
+    for n in names:
+        m = re.match(r'sqverif_(\d+)_', n)
+        if m and not os.path.exists('/proc/%s' % m.group(1)):
+            shutil.rmtree(os.path.join(base, n), True)
 
 
 def scratch_dir(name):
